@@ -25,8 +25,8 @@ import warnings
 RULE = ("part 1 exhaustive over scenarios = (services in the configuration, Companion credentials, AirPlay video / "
         "MRP-tunnel / unified-RAOP flags, empty or real TXT records, which queued SetupData answer connect() with False): "
         "the 31 native sets (both TXT variants, both video flags), all 180 (set-up set, failing proper subset) pairs, 48 "
-        "tunnel/unified configurations all connecting (both TXT variants) and with every single failing connect, plus seeded "
-        "random ones; the device object comes from the real pyatv.connect() and a connected protocol takes over through the "
+        "tunnel/unified configurations all connecting (both TXT variants) and with every single failing connect, five real "
+        "devices as pyatv's own scanner sees them x every set of their protocols left enabled, plus seeded random ones; the device object comes from the real pyatv.connect() and a connected protocol takes over through the "
         "core.takeover wired there; x {no holder, each of 5 holders} x every member with default-style arguments and with "
         "every other value of its enum-typed / optional parameters (from the signatures); then again after each connected "
         "protocol published volume/output devices/focus/play state with exactly the published values as arguments (twice, "
